@@ -1,1 +1,524 @@
-//! (stub)
+//! Gate scheduler for the H1 task hook of noodles-bgzf (`noodles_bgzf::verif`, cfg noodles_verif).
+//!
+//! Every deflate task of `MultithreadedWriter` and every inflate task of `MultithreadedReader`
+//! calls the hook as its first statement. While a gate is installed the task parks there on a
+//! condvar; a controller thread releases parked tasks in the order a generated schedule dictates
+//! and (in strict steps) waits for the task's End event before it releases the next one, so the
+//! *completion order* of the block tasks is owned by the test case.
+//!
+//! A schedule is a list of picks; each pick is an index into the set of currently parked tasks
+//! (sorted by submission index, clamped to the set), so every schedule is feasible by construction
+//! and shrinks towards FIFO (all zeros).
+//!
+//! The controller decides only when the parked set is *stable*: either every pool thread is held by
+//! a parked/running task, or every task that the writer/reader can have spawned without a further
+//! completion has arrived (a small model of the ticket windows, see `Plan`). With that rule the
+//! parked set — and therefore the realised schedule — is a deterministic function of the case.
+//! Every wait has a fallback timeout which only affects exploration (a task is released although
+//! the set was not known to be stable); fallbacks are counted in the statistics, never turned
+//! into a verdict. The harness cannot deadlock itself: a parked task is always released at the
+//! latest after `fallback`, and releases itself after `TASK_FALLBACK` if the controller is gone.
+//!
+//! The hook is process-global. `Gate::uninstall` (also run by `Drop`) opens the gate for good,
+//! removes the hook, joins the controller and waits until every task that entered the hook has
+//! left it, so a case cannot leak parked tasks into the next case of the same shard process.
+
+use noodles_bgzf::verif::{Phase, Task, set_task_hook};
+use std::collections::BTreeMap;
+use std::sync::{Arc, Condvar, Mutex, MutexGuard};
+use std::thread::JoinHandle;
+use std::time::{Duration, Instant};
+
+/// A parked task releases itself after this long (only if the controller has died).
+const TASK_FALLBACK: Duration = Duration::from_secs(5);
+/// Upper bound for the waits in `end_run` / `uninstall`.
+const DRAIN_LIMIT: Duration = Duration::from_secs(3);
+/// `end_run` gives up on announced-but-never-seen tasks after this long without any hook event.
+const DRAIN_QUIET: Duration = Duration::from_millis(60);
+
+#[derive(Clone, Copy, Debug, Default, PartialEq, Eq)]
+pub struct Pick {
+    /// index into the parked set (sorted by submission index), clamped to its size
+    pub idx: u8,
+    /// release without waiting for the End event of this task before the next release (the two
+    /// tasks then really run concurrently; their completion order is left to the OS)
+    pub overlap: bool,
+}
+
+/// Which tasks can have been spawned, given the length `c` of the completed prefix.
+#[derive(Clone, Debug)]
+pub enum Plan {
+    /// `MultithreadedWriter`: the ticket channel is `bounded(pool)` and the writer thread holds one
+    /// more ticket, so block k is submitted iff k <= c + pool.
+    Writer { pool: usize },
+    /// `MultithreadedReader`: `buffers` (= pool + 2) buffers circulate, the consumer returns one per
+    /// block it takes and takes at most `consume` blocks in this run.
+    Reader { buffers: usize, consume: usize },
+}
+
+#[derive(Clone, Debug)]
+pub struct RunPlan {
+    /// identity (see `ident`) of every task this run can spawn, in submission order
+    pub idents: Vec<u64>,
+    pub plan: Plan,
+    /// completions of blocks at or beyond `need` are not observable (orphan read-ahead)
+    pub need: usize,
+    /// where in the schedule this run starts (`None`: continue)
+    pub sched_offset: Option<usize>,
+}
+
+#[derive(Clone, Debug, Default)]
+pub struct Decision {
+    /// size of the parked set
+    pub options: usize,
+    /// position chosen in the sorted parked set
+    pub chosen: usize,
+    /// submission index of the released task
+    pub index: usize,
+    /// the parked set was not known to be stable (fallback timer)
+    pub fallback: bool,
+    /// the completed prefix was still shorter than `need`
+    pub needed: bool,
+}
+
+#[derive(Clone, Debug, Default)]
+pub struct RunReport {
+    /// submission indices in the order the tasks ended
+    pub completion: Vec<usize>,
+    /// submission indices in the order the tasks started
+    pub starts: Vec<usize>,
+    pub decisions: Vec<Decision>,
+    /// tasks whose data matched no planned block
+    pub unknown: usize,
+    /// most tasks parked or running at one time
+    pub max_in_flight: usize,
+    /// the drain at the end of the run hit its time limit
+    pub drain_timeout: bool,
+}
+
+impl RunReport {
+    /// Realised completion order differs from submission order.
+    pub fn reordered(&self) -> bool {
+        self.completion.windows(2).any(|w| w[0] > w[1])
+    }
+    /// A task completed before an earlier-submitted task that was in flight (parked) at the same
+    /// time — measured from the hook events.
+    pub fn overtook_in_flight(&self) -> bool {
+        self.decisions.iter().any(|d| d.options >= 2 && d.chosen > 0) && self.reordered()
+    }
+}
+
+#[derive(Clone, Debug, Default)]
+pub struct Stats {
+    pub fallbacks: usize,
+    pub task_fallbacks: usize,
+    pub unknown: usize,
+    pub passed_through: usize,
+    pub leaked: usize,
+}
+
+#[derive(Clone, Copy, PartialEq, Eq, Debug)]
+enum TState {
+    Parked,
+    Running,
+    Ended,
+}
+
+struct TaskRec {
+    index: usize,
+    state: TState,
+}
+
+struct Run {
+    plan: RunPlan,
+    assigned: Vec<bool>,
+    done: Vec<bool>,
+    tasks: BTreeMap<u64, TaskRec>,
+    /// all hook starts / ends seen while this run was current (known or not)
+    n_started: usize,
+    n_ended: usize,
+    n_known_started: usize,
+    report: RunReport,
+}
+
+impl Run {
+    fn completed_prefix(&self) -> usize {
+        self.done.iter().position(|d| !*d).unwrap_or(self.done.len())
+    }
+    fn target(&self) -> usize {
+        let n = self.plan.idents.len();
+        let c = self.completed_prefix();
+        match self.plan.plan {
+            Plan::Writer { pool } => n.min(c + pool + 1),
+            Plan::Reader { buffers, consume } => n.min(buffers + consume.min(c)),
+        }
+    }
+    fn parked(&self) -> Vec<(usize, u64)> {
+        let mut v: Vec<(usize, u64)> = self.tasks.iter().filter(|(_, t)| t.state == TState::Parked).map(|(tok, t)| (t.index, *tok)).collect();
+        v.sort();
+        v
+    }
+    fn running(&self) -> usize {
+        self.tasks.values().filter(|t| t.state == TState::Running).count()
+    }
+}
+
+struct St {
+    shutdown: bool,
+    open: bool,
+    pool: usize,
+    schedule: Vec<Pick>,
+    cursor: usize,
+    run: Option<Run>,
+    /// tokens that passed through unparked (still inside the task)
+    passing: BTreeMap<u64, ()>,
+    started: u64,
+    ended: u64,
+    last_event: Instant,
+    awaiting: Option<u64>,
+    stats: Stats,
+    /// current no-progress fallback; shrinks after the first fallback (the model of the ticket
+    /// windows is evidently off for this case, so waiting for it only costs time)
+    fallback: Duration,
+}
+
+/// How long the controller waits for the End event of a task it released strictly.
+const AWAIT_END: Duration = Duration::from_secs(2);
+/// No-progress fallback after the first fallback of a gate.
+const IMPATIENT: Duration = Duration::from_millis(8);
+
+struct Inner {
+    m: Mutex<St>,
+    cv: Condvar,
+}
+
+impl Inner {
+    fn lock(&self) -> MutexGuard<'_, St> {
+        match self.m.lock() {
+            Ok(g) => g,
+            Err(p) => p.into_inner(),
+        }
+    }
+}
+
+pub struct Gate {
+    inner: Arc<Inner>,
+    controller: Option<JoinHandle<()>>,
+}
+
+/// Identity of a task by its data (the uncompressed block / the raw frame). Tasks with equal data
+/// are interchangeable in everything the harness observes.
+pub fn ident(data: &[u8]) -> u64 {
+    ((data.len() as u64) << 32) | crc32fast::hash(data) as u64
+}
+
+fn on_event(inner: &Inner, _task: Task, phase: Phase, token: u64, data: &[u8]) {
+    match phase {
+        Phase::Start => {
+            let id = ident(data);
+            let mut g = inner.lock();
+            g.started += 1;
+            g.last_event = Instant::now();
+            let pass = g.shutdown || g.open;
+            let mut parked = false;
+            if let Some(run) = g.run.as_mut() {
+                run.n_started += 1;
+                let slot = (0..run.plan.idents.len()).find(|&i| !run.assigned[i] && run.plan.idents[i] == id);
+                match slot {
+                    Some(i) => {
+                        run.assigned[i] = true;
+                        run.n_known_started += 1;
+                        run.report.starts.push(i);
+                        run.tasks.insert(token, TaskRec { index: i, state: if pass { TState::Running } else { TState::Parked } });
+                        parked = !pass;
+                        let in_flight = run.tasks.values().filter(|t| t.state != TState::Ended).count();
+                        run.report.max_in_flight = run.report.max_in_flight.max(in_flight);
+                    }
+                    None => {
+                        run.report.unknown += 1;
+                        g.stats.unknown += 1;
+                        g.passing.insert(token, ());
+                    }
+                }
+            } else {
+                g.passing.insert(token, ());
+            }
+            if !parked {
+                g.stats.passed_through += 1;
+                inner.cv.notify_all();
+                return;
+            }
+            inner.cv.notify_all();
+            let t0 = Instant::now();
+            loop {
+                let still_parked = !g.shutdown && !g.open && g.run.as_ref().and_then(|r| r.tasks.get(&token)).map(|t| t.state == TState::Parked).unwrap_or(false);
+                if !still_parked {
+                    break;
+                }
+                let waited = t0.elapsed();
+                if waited >= TASK_FALLBACK {
+                    g.stats.task_fallbacks += 1;
+                    break;
+                }
+                g = match inner.cv.wait_timeout(g, TASK_FALLBACK - waited) {
+                    Ok((g, _)) => g,
+                    Err(p) => p.into_inner().0,
+                };
+            }
+            if let Some(t) = g.run.as_mut().and_then(|r| r.tasks.get_mut(&token)) {
+                if t.state == TState::Parked {
+                    t.state = TState::Running;
+                }
+            }
+            g.last_event = Instant::now();
+            inner.cv.notify_all();
+        }
+        Phase::End => {
+            let mut g = inner.lock();
+            g.ended += 1;
+            g.last_event = Instant::now();
+            if g.passing.remove(&token).is_some() {
+                if let Some(run) = g.run.as_mut() {
+                    run.n_ended += 1;
+                }
+            } else if let Some(run) = g.run.as_mut() {
+                if let Some(t) = run.tasks.get_mut(&token) {
+                    t.state = TState::Ended;
+                    let i = t.index;
+                    run.done[i] = true;
+                    run.report.completion.push(i);
+                    run.n_ended += 1;
+                }
+            }
+            if g.awaiting == Some(token) {
+                g.awaiting = None;
+            }
+            inner.cv.notify_all();
+        }
+    }
+}
+
+fn controller(inner: Arc<Inner>) {
+    let mut g = inner.lock();
+    loop {
+        if g.shutdown {
+            return;
+        }
+        let fallback = g.fallback;
+        let idle = g.last_event.elapsed();
+        let mut wait = Duration::from_millis(500);
+        if !g.open {
+            // a strict release is outstanding: wait for its End event
+            if let Some(tok) = g.awaiting {
+                let ended = g.run.as_ref().and_then(|r| r.tasks.get(&tok)).map(|t| t.state == TState::Ended).unwrap_or(true);
+                if ended {
+                    g.awaiting = None;
+                    continue;
+                }
+                // the task is known to be running: be generous before giving up on its End event
+                let limit = fallback.max(AWAIT_END);
+                if idle >= limit {
+                    g.awaiting = None;
+                    g.stats.fallbacks += 1;
+                    g.last_event = Instant::now();
+                    continue;
+                }
+                wait = limit - idle;
+            } else {
+                let pool = g.pool;
+                let decision = g.run.as_ref().and_then(|run| {
+                    let parked = run.parked();
+                    if parked.is_empty() {
+                        return None;
+                    }
+                    let stable = parked.len() + run.running() >= pool || run.n_known_started >= run.target();
+                    Some((parked, stable, run.completed_prefix() < run.plan.need))
+                });
+                if let Some((parked, stable, needed)) = decision {
+                    if stable || idle >= fallback {
+                        let pick = g.schedule.get(g.cursor).copied().unwrap_or_default();
+                        g.cursor += 1;
+                        let j = (pick.idx as usize).min(parked.len() - 1);
+                        let (index, tok) = parked[j];
+                        if !stable {
+                            g.stats.fallbacks += 1;
+                            g.fallback = g.fallback.min(IMPATIENT);
+                        }
+                        if let Some(run) = g.run.as_mut() {
+                            if let Some(t) = run.tasks.get_mut(&tok) {
+                                t.state = TState::Running;
+                            }
+                            run.report.decisions.push(Decision { options: parked.len(), chosen: j, index, fallback: !stable, needed });
+                        }
+                        if !pick.overlap {
+                            g.awaiting = Some(tok);
+                        }
+                        g.last_event = Instant::now();
+                        inner.cv.notify_all();
+                        continue;
+                    }
+                    wait = fallback - idle;
+                }
+            }
+        }
+        g = match inner.cv.wait_timeout(g, wait.max(Duration::from_millis(1))) {
+            Ok((g, _)) => g,
+            Err(p) => p.into_inner().0,
+        };
+    }
+}
+
+impl Gate {
+    /// Install the process-wide hook and start the controller. `pool` = rayon worker count.
+    pub fn install(pool: usize, schedule: Vec<Pick>, fallback: Duration) -> Gate {
+        let inner = Arc::new(Inner {
+            m: Mutex::new(St {
+                shutdown: false,
+                open: true,
+                pool: pool.max(1),
+                schedule,
+                cursor: 0,
+                run: None,
+                passing: BTreeMap::new(),
+                started: 0,
+                ended: 0,
+                last_event: Instant::now(),
+                awaiting: None,
+                stats: Stats::default(),
+                fallback,
+            }),
+            cv: Condvar::new(),
+        });
+        let hook_inner = inner.clone();
+        set_task_hook(Some(Arc::new(move |task, phase, token, data: &[u8]| on_event(&hook_inner, task, phase, token, data))));
+        let ctl_inner = inner.clone();
+        let controller = std::thread::Builder::new().name("gate-controller".into()).spawn(move || controller(ctl_inner)).ok();
+        Gate { inner, controller }
+    }
+
+    /// Start a run: tasks arriving from now on are matched against `plan.idents` and parked.
+    pub fn begin_run(&self, plan: RunPlan) {
+        let mut g = self.inner.lock();
+        let n = plan.idents.len();
+        if let Some(off) = plan.sched_offset {
+            g.cursor = off;
+        }
+        g.run = Some(Run { plan, assigned: vec![false; n], done: vec![false; n], tasks: BTreeMap::new(), n_started: 0, n_ended: 0, n_known_started: 0, report: RunReport::default() });
+        g.open = false;
+        g.awaiting = None;
+        g.last_event = Instant::now();
+        self.inner.cv.notify_all();
+    }
+
+    /// Open the gate (everything parked is released, arrivals pass) without ending the run.
+    pub fn open(&self) {
+        let mut g = self.inner.lock();
+        g.open = true;
+        g.awaiting = None;
+        self.inner.cv.notify_all();
+    }
+
+    /// End the run: open the gate, wait until `spawned` tasks of this run have ended (bounded),
+    /// and return what happened.
+    pub fn end_run(&self, spawned: usize) -> RunReport {
+        let mut g = self.inner.lock();
+        g.open = true;
+        g.awaiting = None;
+        self.inner.cv.notify_all();
+        let t0 = Instant::now();
+        let mut timed_out = false;
+        loop {
+            let (started, ended) = g.run.as_ref().map(|r| (r.n_started, r.n_ended)).unwrap_or((0, 0));
+            if ended >= spawned && ended >= started {
+                break;
+            }
+            let waited = t0.elapsed();
+            // fewer tasks than announced and nothing in flight for a while: the announcement was
+            // wrong (the model does not fit this case); do not sit out the whole limit
+            let quiet = ended >= started && g.last_event.elapsed() >= DRAIN_QUIET && waited >= DRAIN_QUIET;
+            if waited >= DRAIN_LIMIT || quiet {
+                timed_out = true;
+                break;
+            }
+            g = match self.inner.cv.wait_timeout(g, (DRAIN_LIMIT - waited).min(DRAIN_QUIET)) {
+                Ok((g, _)) => g,
+                Err(p) => p.into_inner().0,
+            };
+        }
+        // Tasks that were spawned but have not started yet (possible when `spawned` is only a lower
+        // bound, e.g. after a sink error) must not start in the next run / next case: the injector
+        // of the pool is FIFO, so once a marker task spawned now has run, everything spawned
+        // before it has started; then wait until everything that started has ended.
+        drop(g);
+        let (tx, rx) = std::sync::mpsc::channel::<()>();
+        rayon::spawn(move || {
+            let _ = tx.send(());
+        });
+        let _ = rx.recv_timeout(DRAIN_LIMIT);
+        let mut g = self.inner.lock();
+        let t1 = Instant::now();
+        loop {
+            let (started, ended) = g.run.as_ref().map(|r| (r.n_started, r.n_ended)).unwrap_or((0, 0));
+            if ended >= started {
+                break;
+            }
+            let waited = t1.elapsed();
+            if waited >= DRAIN_LIMIT {
+                timed_out = true;
+                break;
+            }
+            g = match self.inner.cv.wait_timeout(g, DRAIN_LIMIT - waited) {
+                Ok((g, _)) => g,
+                Err(p) => p.into_inner().0,
+            };
+        }
+        let mut report = g.run.take().map(|r| r.report).unwrap_or_default();
+        report.drain_timeout = timed_out;
+        report
+    }
+
+    pub fn stats(&self) -> Stats {
+        self.inner.lock().stats.clone()
+    }
+
+    fn shutdown(&mut self) -> Stats {
+        {
+            let mut g = self.inner.lock();
+            g.shutdown = true;
+            g.open = true;
+            self.inner.cv.notify_all();
+        }
+        set_task_hook(None);
+        if let Some(h) = self.controller.take() {
+            let _ = h.join();
+        }
+        // wait until every task that entered the hook has left it
+        let mut g = self.inner.lock();
+        let t0 = Instant::now();
+        while g.ended < g.started {
+            let waited = t0.elapsed();
+            if waited >= DRAIN_LIMIT {
+                g.stats.leaked += (g.started - g.ended) as usize;
+                break;
+            }
+            g = match self.inner.cv.wait_timeout(g, DRAIN_LIMIT - waited) {
+                Ok((g, _)) => g,
+                Err(p) => p.into_inner().0,
+            };
+        }
+        g.stats.clone()
+    }
+
+    /// Remove the hook, stop the controller, drain. Returns the statistics of the whole gate.
+    pub fn uninstall(mut self) -> Stats {
+        self.shutdown()
+    }
+}
+
+impl Drop for Gate {
+    fn drop(&mut self) {
+        if self.controller.is_some() {
+            let _ = self.shutdown();
+        }
+    }
+}
